@@ -498,17 +498,103 @@ def pct(const, arg):
     return const % arg
 
 
+_MISSING = object()
+
+
+def _shape(v):
+    if _real_isinstance(v, _real_bool):
+        return ("bool",)
+    if _real_isinstance(v, _real_int) and type(v) is _real_int:
+        return ("int",)
+    if type(v) is _real_str:
+        return ("str", _real_len(v))
+    if type(v) in (_real_bytes, _real_bytearray):
+        return ("bytes", _real_len(v))
+    return ("obj", id(v))
+
+
+def sym_lookup(pairs, default=_MISSING, on_missing=None):
+    """Table lookup with a symbolic key.  pairs: [(condition 'key == k_j' as a z3 Bool, value_j)],
+    conditions mutually exclusive.  Values of the same shape (ints; text / octets of one length)
+    are merged into ONE path whose result is an if-then-else term over the conditions; values of
+    different shapes get a path each.  (Without this, a 256-entry table costs 256 paths per lookup.)"""
+    e = E()
+    groups = {}
+    for cond, v in pairs:
+        if z3.is_false(cond):
+            continue
+        groups.setdefault(_shape(v), []).append((cond, v))
+    for shp, members in groups.items():
+        conds = [c for c, _ in members]
+        if any(z3.is_true(c) for c in conds):
+            return [v for c, v in members if z3.is_true(c)][0]
+        hit = z3.Or(*conds) if _real_len(conds) > 1 else conds[0]
+        if not e.decide(hit):
+            continue
+        if _real_len(members) == 1 or shp[0] == "obj":
+            return members[0][1]
+
+        def ite(get):
+            t = z3.IntVal(get(members[-1][1]))
+            for c, v in reversed(members[:-1]):
+                t = z3.If(c, z3.IntVal(get(v)), t)
+            return z3.simplify(t)
+
+        if shp[0] == "int":
+            vals = [v for _, v in members]
+            return V.mk_int(ite(lambda v: v), min(vals), max(vals))
+        if shp[0] == "bool":
+            return V.mk_int(ite(lambda v: 1 if v else 0), 0, 1) != 0
+        n = shp[1]
+        if shp[0] == "str":
+            return T.mk_str([ite(lambda v, i=i: ord(v[i])) for i in range(n)])
+        items = [ite(lambda v, i=i: v[i]) for i in range(n)]
+        return V.mk_bytes(items)
+    if on_missing is not None:
+        raise on_missing
+    return default
+
+
+def _key_cond(key, k):
+    r = key == k
+    if r is NotImplemented or r is False:
+        return z3.BoolVal(False)
+    if r is True:
+        return z3.BoolVal(True)
+    return V.bterm(r)
+
+
 def sx_get(obj, *args):
-    """obj.get(key[, default]) - forks over the keys when the key is symbolic"""
+    """obj.get(key[, default]) with a symbolic key: one path per shape of value (see sym_lookup)"""
     if _real_isinstance(obj, dict) and args and is_proxy(args[0]):
         key = args[0]
         default = args[1] if _real_len(args) > 1 else None
-        for k in list(obj.keys()):
-            r = key == k
-            if r is True or (r is not False and r is not NotImplemented and _real_bool(r)):
-                return obj[k]
-        return default
+        return sym_lookup([(_key_cond(key, k), v) for k, v in obj.items()], default)
     return obj.get(*args)
+
+
+def sx_idx(obj, key):
+    """obj[key]; a symbolic index into a genuine tuple / list / str / bytes / dict is a table lookup"""
+    if not is_proxy(key):
+        return obj[key]
+    t = type(obj)
+    if t is dict:
+        return sym_lookup([(_key_cond(key, k), v) for k, v in obj.items()], on_missing=KeyError(PLACEHOLDER_KEY))
+    if t in (tuple, list, _real_str, _real_bytes) and _real_isinstance(key, PROXY_INT) and not any(is_proxy(x) for x in (obj if t in (tuple, list) else ())):
+        n = _real_len(obj)
+        if n <= 4096:
+            idx = key + 0
+            e = E()
+            if not e.decide(V.bterm(V.sand(idx >= -n, idx < n))):
+                raise IndexError("index out of range")
+            it = V.iterm(idx)
+            off = n if e.decide(V.bterm(idx < 0)) else 0  # negative indices count from the end
+            pairs = [(z3.simplify(it == z3.IntVal(j - off)), obj[j]) for j in range(n)]
+            return sym_lookup(pairs, on_missing=IndexError("index out of range"))
+    return obj[key]
+
+
+PLACEHOLDER_KEY = "<symbolic key>"
 
 
 # ---------------------------------------------------------------------- struct / base64
@@ -713,6 +799,7 @@ def make_builtins():
             "__sx_pct__": pct,
             "__sx_get__": sx_get,
             "__sx_in__": sx_in,
+            "__sx_idx__": sx_idx,
             "__sx_real_int__": _real_int,
             "__sx_real_str__": _real_str,
             "__sx_real_bytes__": _real_bytes,
